@@ -8,6 +8,7 @@ from ..core import FUNC, call_attr, calls_in, const, dotted, is_const, kwarg, no
 from .c09 import waiter_rule, _stored_in_cancelled_table
 
 EXPLANATION = [
+    'C16.source-loss-reported: every transport read loop that records a failure with terminated.set_exception also calls on_transport_lost in the same handler: the host is told through its sink interface.',
     'C16.lost-transport-senders: Host.on_transport_lost fails the pending response and, when none is pending, releases a locked command semaphore; _send_command raises TransportLostError once it holds the semaphore: no sender waits for ever after the loss.',
     "C16.gone-connection: Connection.cancel_on_disconnection cancels at once when the connection is no longer registered with its device (the 'disconnection' event it would wait for has already been emitted), and Device.disconnect refuses a link that is in none of the device's tables before sending anything.",
     'C16.settle-guard: every set_result / set_exception on a future kept in a channel attribute is under `not <future>.done()`, unless every coroutine waiting on that attribute clears it in a finally (a waiter that timed out leaves a cancelled future behind; settling it raises InvalidStateError in the middle of the link teardown).',
@@ -626,7 +627,28 @@ def lost_transport_senders(ctx):
     R.check(bool(tests), rule, 'bumble.host.Host._send_command | refuses after the loss', 'raises once it holds the semaphore when the transport is lost', '_send_command no longer refuses to send after the transport was lost', p.loc(sc))
 
 
+def source_loss_reported(ctx):
+    """A transport source that stops reading because the read failed records the failure in `terminated` AND reports the loss
+    to its sink (on_transport_lost): the future alone is looked at by applications, the host learns about the loss only
+    through its sink interface."""
+    R, p = ctx.r, ctx.p
+    rule = 'C16.source-loss-reported'
+    n = 0
+    for mn, m in sorted(p.modules.items()):
+        if not mn.startswith('bumble.transport'):
+            continue
+        for c in [x for x in ast.walk(m.tree) if isinstance(x, ast.Call) and (dotted(x.func) or '') == 'self.terminated.set_exception']:
+            n += 1
+            blk = c
+            while blk is not None and not isinstance(blk, (ast.ExceptHandler,) + FUNC):
+                blk = getattr(blk, '_parent', None)
+            told = [x for x in ast.walk(blk) if isinstance(x, ast.Call) and (dotted(x.func) or '') in ('self.on_transport_lost', 'self.sink.on_transport_lost')] if blk is not None else []
+            R.check(bool(told), rule, f'{p.qual_of(c)} | terminated.set_exception', 'the sink is told as well', f'the read loop records its failure in `terminated` and stops without calling on_transport_lost: with this transport the host is never told that the link to the controller is gone (pending commands wait for ever, connections stay in the tables)', f'{m.rel}:{c.lineno}')
+    R.check(n >= 1, rule, 'bumble.transport | failing read loops', f'{n} site(s) record a read failure', 'no site found (anchor moved)')
+
+
 RULES = [
+    ('C16.source-loss-reported', source_loss_reported),
     ('C16.lost-transport-senders', lost_transport_senders),
     ('C16.gone-connection', gone_connection),
     ('C16.settle-guard', settle_guard_rule),
